@@ -59,6 +59,7 @@ def g_scripts(ctx, focus, name, cfg, ncalls, start_connected, cap=None, every=1)
     ctx.run_tlc(name, "EBB3LinkMC", cfg, dump=dump)
     items, events, drifts = [], [], 0
     conn_model = conn_real = 0
+    opened0 = len(L.OPENED)
     allitems = [(hist, dev, board, None) for hist, dev, board, _st in L.scripts_from_dump(dump + ".dump", ncalls)]
     n = len(allitems)
     strata = len({(dev, tuple(h["m"] for h in hist)[:2], tuple(h["s"] for h in hist if h["m"] == "<replug>")) for hist, dev, _b, _s in allitems})
@@ -84,9 +85,17 @@ def g_scripts(ctx, focus, name, cfg, ncalls, start_connected, cap=None, every=1)
             ctx.sample({"mode": "G", "script": script, "device": dev, "observed": [[c["m"], c["ret"], c["err_set"], [o["t"] for o in c["ops"] if o["k"] == "w"]] for c in calls]})
     del allitems
     if conn_model >= 5 and conn_real == 0:
-        # every connect the model expects to succeed failed on the real object: the stubbed serial.Serial / comports no longer intercept
-        # (e.g. the layer now imports them under another name) and every connect history would pass vacuously
-        raise vlib.MachineryError("%s: none of %d connects the model expects to succeed did - the harness stubs do not reach the code under test" % (name, conn_model))
+        if len(L.OPENED) == opened0:
+            # the code under test never opened a port through the stubbed serial.Serial / comports (e.g. the layer now imports them under
+            # another name): every connect history would pass vacuously
+            raise vlib.MachineryError("%s: none of %d connects the model expects to succeed did, and no port was opened through the harness stubs "
+                                      "- they do not reach the code under test" % (name, conn_model))
+        # ports were opened, supported boards identified themselves, and not one connect() succeeded: the gate blocks the boards it exists to admit
+        if focus == "C15":
+            ctx.violation("connect.supported_board_is_accepted", {"mode": "G", "stage": name, "connects_expected_to_succeed": conn_model},
+                          "True with no error for a board that identifies itself as an EBB with supported firmware", "no connect() of the stage returned True")
+        else:
+            ctx.note_drift("no connect() of stage %s succeeded although %d should: its connect histories say little (C15 reports this)" % (name, conn_model), {})
     os.remove(dump + ".dump")
     vs = L.judge(ctx, name + ".judge", events)
     rej, skipped = L.report(ctx, focus, "G", items, vs, None)
